@@ -779,11 +779,10 @@ func laws(sel int, in, got []int64, law func(lsel int, lin []int64, sig string))
 		// only to the law the finding explains; 111/112 re-check everything D2 does not touch.
 		const d2 = "C14-D2-selector-members-of-non-leaf-hypernode-stale-after-node-event"
 		const d7 = "C14-D7-bad-membership-invisible-under-tier-inversion"
-		const d9 = "C14-D9-release-resets-parent-pointer-of-member-adopted-by-another"
 		pick := func(f flags, order ...string) string {
 			for _, sg := range order {
 				switch {
-				case sg == d2 && f.selStale, sg == d7 && f.tierInversion, sg == d9 && f.foreignReset:
+				case sg == d2 && f.selStale, sg == d7 && f.tierInversion:
 					return sg
 				}
 			}
@@ -791,13 +790,13 @@ func laws(sel int, in, got []int64, law func(lsel int, lin []int64, sig string))
 		}
 		both := flags{selStale: fl.selStale || ffl.selStale, failedDelete: fl.failedDelete || ffl.failedDelete,
 			tierInversion: fl.tierInversion || ffl.tierInversion, foreignReset: fl.foreignReset || ffl.foreignReset}
-		law(101, cat(encEnv(w, nodes), eo, incr), pick(fl, d2, d7, d9))
-		law(111, cat(encEnv(w, nodes), eo, incr), pick(fl, d7, d9))
-		law(102, cat(eo, incr, fresh), pick(both, d2, d7, d9))
-		law(112, cat(eo, incr, fresh), pick(both, d7, d9))
+		law(101, cat(encEnv(w, nodes), eo, incr), pick(fl, d2, d7))
+		law(111, cat(encEnv(w, nodes), eo, incr), pick(fl, d7))
+		law(102, cat(eo, incr, fresh), pick(both, d2, d7))
+		law(112, cat(eo, incr, fresh), pick(both, d7))
 		law(105, cat(eo, incr), pick(fl, d7))
 		law(106, cat(eo, incr), pick(fl, d7))
-		law(101, cat(encEnv(w, nodes), eo, fresh), pick(ffl, d2, d7, d9))
+		law(101, cat(encEnv(w, nodes), eo, fresh), pick(ffl, d2, d7))
 		law(106, cat(eo, fresh), pick(ffl, d7))
 	case 3:
 		traceLaws(law)
